@@ -23,10 +23,12 @@ structure XOracles where
   base : Oracles
   /-- `float(d)` of a Decimal: the nearest double, as an exact rational -/
   toFloat : Q → Q
-  /-- `datetime.strptime(s, fmt)` (`.date()` for DateField) of temporal kind `k`: the tag of the value -/
-  parse : String → String → Option String
-  /-- `value.strftime(fmt)` for temporal kind `k` -/
-  format : String → String → String
+  /-- `datetime.strptime(s, fmt)` (`.date()` for DateField) for value type `ty`: the tag of the value -/
+  parse : String → String → String → Option String
+  /-- `value.strftime(fmt)` for value type `ty` -/
+  format : String → String → String → String
+  /-- `type(v).__name__` of the opaque value with the given tag -/
+  typeOf : String → String
 
 inductive XDecl where
   /-- any core declaration -/
@@ -37,8 +39,9 @@ inductive XDecl where
       (aliases and the zero member of a Flag are not iterated); `mixin` = the members compare equal to
       their values (IntEnum), so that the constructor's `value in members` accepts the raw value -/
   | enumVal (cls : String) (members : List (String × PyVal)) (mixin : Bool)
-  /-- `DateField` (`ints = false`) / `DateTime` (`ints = true`: an int argument is accepted by the type test) -/
-  | temporal (kind : String) (ints : Bool)
+  /-- `DateField(date_format=fmt)` (`ty = "date"`, `ints = false`) / `DateTime(datetime_format=fmt)`
+      (`ty = "datetime"`, `ints = true`: an int argument passes the type test) -/
+  | temporal (ty fmt : String) (ints : Bool)
   /-- `AnyOf[X, NoneField]` -/
   | opt (x : XDecl)
   | seqOf (k : SeqKind) (x : XDecl)
@@ -71,7 +74,7 @@ def xConvDecimal (v : PyVal) : R Q :=
     | none => .error .typeErr
 
 /-- `DecimalNumber.__set__`: convert, then the Number checks on the Decimal -/
-def vDecimal (o : NumOpts) (v : PyVal) : R PyVal :=
+def sxDecimal (o : NumOpts) (v : PyVal) : R PyVal :=
   bindE (xConvDecimal v) fun q => if numOk o q then .ok (.dec q) else .error .valueErr
 
 /-- `DecimalNumber.deserialize`: convert only (the bounds are the constructor's business) -/
@@ -119,15 +122,15 @@ def sEnumVal (ms : List (String × PyVal)) (v : PyVal) : R PyVal :=
       | none => .error (.other "outside-model:foreign-member"))
   | _ => .error (.other "AttributeError")
 
-/-- a temporal value is `.opaque tag` with `tag = kind ++ ":" ++ …` -/
-def xIsKind (kind tag : String) : Bool := (kind ++ ":").isPrefixOf tag
+/-- a temporal value is `.opaque tag` whose Python type is `ty` (`isinstance(value, date)` …) -/
+def xIsKind (XO : XOracles) (ty tag : String) : Bool := XO.typeOf tag == ty
 
 /-- `DateField.deserialize` / `DateTime.deserialize`: `strptime` of a str (ValueError when it does not
     parse), TypeError for anything else; DateTime reads an int between 1e9 and 2e9 as a timestamp
     (`fromtimestamp` depends on the local time zone: outside the model) -/
-def dTemporal (XO : XOracles) (kind : String) (ints : Bool) (v : PyVal) : R PyVal :=
+def dTemporal (XO : XOracles) (ty fmt : String) (ints : Bool) (v : PyVal) : R PyVal :=
   match v with
-  | .str s => (match XO.parse kind s with
+  | .str s => (match XO.parse ty fmt s with
       | some t => .ok (.opaque t)
       | none => .error .valueErr)
   | .int i =>
@@ -138,15 +141,15 @@ def dTemporal (XO : XOracles) (kind : String) (ints : Bool) (v : PyVal) : R PyVa
 /-- `DateField.__set__` / `DateTime.__set__`: a value of the kind is kept, a str (an int for DateTime)
     goes through `deserialize`, anything else is a TypeError (a datetime given to a DateField is cut to
     its date: outside the model) -/
-def vTemporal (XO : XOracles) (kind : String) (ints : Bool) (v : PyVal) : R PyVal :=
+def vTemporal (XO : XOracles) (ty fmt : String) (ints : Bool) (v : PyVal) : R PyVal :=
   match v with
-  | .opaque t => if xIsKind kind t then .ok v else .error (.other "outside-model:temporal-conversion")
-  | w => dTemporal XO kind ints w
+  | .opaque t => if xIsKind XO ty t then .ok v else .error (.other "outside-model:temporal-conversion")
+  | w => dTemporal XO ty fmt ints w
 
 /-- `value.strftime(format)` -/
-def sTemporal (XO : XOracles) (kind : String) (v : PyVal) : R PyVal :=
+def sTemporal (XO : XOracles) (ty fmt : String) (v : PyVal) : R PyVal :=
   match v with
-  | .opaque t => .ok (.str (XO.format kind t))
+  | .opaque t => .ok (.str (XO.format ty fmt t))
   | _ => .error (.other "AttributeError")
 
 /-- `AnyOf[X, NoneField]` (constructor and deserialization alike): the result of `X` if it accepts,
@@ -162,9 +165,9 @@ mutual
 /-- `field.__set__(fresh_instance, v)` -/
 def validateX (XO : XOracles) : XDecl → PyVal → R PyVal
   | .base f, v => validate XO.base f v
-  | .decimal o, v => vDecimal o v
+  | .decimal o, v => sxDecimal o v
   | .enumVal cls ms mx, v => vEnumVal cls ms mx v
-  | .temporal kind ints, v => vTemporal XO kind ints v
+  | .temporal ty fmt ints, v => vTemporal XO ty fmt ints v
   | .opt x, v => xOptOf (validateX XO x v) v
   | .seqOf k x, v => vSeq k {} (fun _ => true) (mapE (validateX XO x)) v
   | .setOf x, v => vSet false {} (mapE (validateX XO x)) v
@@ -206,7 +209,7 @@ def serX (XO : XOracles) : XDecl → PyVal → R PyVal
   | .base f, v => ser XO.base f v
   | .decimal _, v => sDecimal XO v
   | .enumVal _ ms _, v => sEnumVal ms v
-  | .temporal kind _, v => sTemporal XO kind v
+  | .temporal ty fmt _, v => sTemporal XO ty fmt v
   | .opt x, v => if v.isNone then .ok .none else serX XO x v
   | .seqOf _ x, v => sSeq (mapE (serX XO x)) v
   | .setOf x, v => sSeq (mapE (serX XO x)) v
@@ -235,7 +238,7 @@ def deserX (XO : XOracles) (opts : DeserOpts) (ign : Bool) : XDecl → PyVal →
   | .base f, v => deser XO.base opts ign f v
   | .decimal _, v => if v.isNone && ign then .ok v else dDecimal v
   | .enumVal cls ms _, v => if v.isNone && ign then .ok v else dEnumVal cls ms v
-  | .temporal kind ints, v => if v.isNone && ign then .ok v else dTemporal XO kind ints v
+  | .temporal ty fmt ints, v => if v.isNone && ign then .ok v else dTemporal XO ty fmt ints v
   | .opt x, v => if v.isNone && ign then .ok v else xOptOf (deserX XO opts false x v) v
   | .seqOf k x, v =>
     if v.isNone && ign then .ok v
